@@ -91,7 +91,11 @@ def o_left(kind):
 
 def o_c06(ctx):
     pairs = ALL_STD if ctx.c.kind == 0 else LEFT
-    return search_vs_spec(ctx, pairs, ("", "R"))
+    out = search_vs_spec(ctx, pairs, ("", "R"))
+    b = single(ctx.i, "BUILD")
+    if single(ctx.s, "SPECBUILD") == ["ok"] and b is not None and b != ["ok"] and not b[0].startswith("err:AutomatonScale"):
+        out.append(v(ctx.c, "construction fails on a valid collection: no match can carry its value", " ".join(b)))
+    return out
 
 
 def o_c07(ctx):
@@ -103,7 +107,7 @@ def o_c07(ctx):
     for l in ctx.impl_lines:
         if "!panic" in l and not l.startswith("KINDCHK"):
             out.append(v(ctx.c, "a search panicked", l))
-    return out + byval_violations(ctx)
+    return out + byval_violations(ctx) + apix_violations(ctx)
 
 
 def o_c09(ctx):
@@ -201,10 +205,22 @@ def o_c13(ctx):
     return out
 
 
+def apix_violations(ctx):
+    a = single(ctx.i, "APIX")
+    if a is not None and a != ["1", "1", "1", "1"]:
+        names = ["a clone differs from the original", "a search after partially consumed (dropped) iterators answers differently",
+                 "two interleaved iterators on one automaton answer differently from the same searches run one after the other",
+                 "searching changed the automaton's bytes"]
+        what = "; ".join(n for n, x in zip(names, a) if x != "1") or "the API-surface run panicked"
+        return [v(ctx.c, what, " ".join(a))]
+    return []
+
+
 def o_c14(ctx):
     out = []
     if not ctx.built():
         return out
+    out += apix_violations(ctx)
     d = single(ctx.i, "DET")
     if d is not None and d != ["1"]:
         out.append(v(ctx.c, "building twice from the same input gave different bytes", ""))
@@ -299,7 +315,7 @@ PROPS = {
     "C06": dict(tags={"BUILD", "OVL", "FIND", "NOS", "LEFT", "OVLI", "FINDI", "NOSI", "ROVL", "RFIND", "RNOS", "RLEFT",
                       "ROVLI", "RFINDI", "RNOSI", "RT"}, oracle=o_c06),
     "C07": dict(tags={"BUILD", "IMG", "TABLE", "OVL", "FIND", "NOS", "LEFT", "OVLI", "FINDI", "NOSI", "ROVL", "RFIND",
-                      "RNOS", "RLEFT", "RT", "KINDCHK", "KINDCHKI", "BYVAL", "RBYVAL"}, oracle=o_c07, profiles=("debug", "release")),
+                      "RNOS", "RLEFT", "RT", "KINDCHK", "KINDCHKI", "BYVAL", "RBYVAL", "APIX"}, oracle=o_c07, profiles=("debug", "release")),
     "C08": dict(tags={"BUILD", "TABLE", "OVL", "FIND", "NOS", "LEFT"}, oracle=o_c08, group=g_c08),
     "C09": dict(tags={"BUILD", "IMG", "RT", "ROVL", "RFIND", "RNOS", "RLEFT", "ROVLI", "RFINDI", "RNOSI", "OVL", "FIND",
                       "NOS", "LEFT"}, oracle=o_c09),
@@ -307,6 +323,6 @@ PROPS = {
     "C11": dict(tags={"BUILD", "IMG", "STATS", "TABLE", "OVL", "FIND", "NOS", "LEFT"}, oracle=o_c11, group=g_c11),
     "C12": dict(tags={"BUILD", "OVL", "FIND", "NOS", "OVLI", "FINDI", "NOSI"}, oracle=o_c12),
     "C13": dict(tags={"BUILD", "TABLE", "TICKS", "RTICKS", "KINDCHK", "KINDCHKI"}, oracle=o_c13),
-    "C14": dict(tags={"BUILD", "IMG", "DET", "THREADS"}, oracle=o_c14, group=g_c14),
+    "C14": dict(tags={"BUILD", "IMG", "DET", "THREADS", "APIX"}, oracle=o_c14, group=g_c14),
     "C15": dict(tags={"BUILD", "STATS", "TABLE"}, oracle=o_c15),
 }
